@@ -2713,7 +2713,7 @@ def check_C19(run):
                        '(PE: zero-padded to the file alignment) and every byte of the original image survives; L4: the section is added to the freshly built rjrssync binary, which must still run and list the embedded binaries; '
                        'non-trivial = a valid layout or a corruption that reaches past the header checks; distinct by request line')
     lines, meta = [], []
-    for i in range(1500 if not thorough else 30000):
+    for i in range(1500 if not thorough else 8000):
         kind = rng.choice(['elf', 'pe'])
         img = G.make_elf(rng) if kind == 'elf' else G.make_pe(rng)
         corrupted = rng.random() < 0.45
@@ -2723,8 +2723,8 @@ def check_C19(run):
         name = rng.choice(['.rjembed'] * 8 + ['x', 'toolongname9'])
         lines.append(f'exe add{kind} {C.X(img)} {C.X(name)} {C.X(payload)}'); meta.append((kind, 'add', corrupted, img, name, payload))
         lines.append(f'exe ext{kind} {C.X(img)} {C.X(rng.choice([name, ".s1", ".shstrtab", ".s0"]))}'); meta.append((kind, 'ext', corrupted, img, name, payload))
-    impl = [a for a, _ in C.run_harness(lines, timeout=1800)]
-    model = C.run_model(lines, timeout=1800)
+    impl = [a for a, _ in C.run_harness(lines, timeout=7200)]
+    model = C.run_model(lines, timeout=7200)
     known = [f for f in C.load_known()['open'] if f.get('id') == 'C19-F9']
     known_classes = set(known[0]['panic_classes']) if known else set()
     panic_seen, second, bad = {}, [], None
